@@ -16,7 +16,7 @@ import subprocess
 import time
 
 VERIF = os.path.dirname(os.path.dirname(os.path.abspath(__file__)))
-BUILD = os.path.join(VERIF, 'build')
+BUILD = os.environ.get('VERIF_BUILD') or os.path.join(VERIF, 'build')
 SRC = os.path.join(BUILD, 'xp-src')
 TARGET = os.path.join(BUILD, 'xp-target')
 HOOKS = os.path.join(VERIF, 'hooks', 'syncx_blocks.rs')
